@@ -11,8 +11,18 @@ ToNfa(j) == [start |-> Rng(j.start), fin |-> Rng(j.fin), delta |-> Rng(j.delta)]
 Has(e, k) == k \in DOMAIN e
 Why(b, s) == IF b THEN {} ELSE {s}
 TF(b) == IF b THEN "T" ELSE "F"
-Unchanged(e) == ToNfa(e.res.A_after) = ToNfa(e.A)
-             /\ (Has(e.res, "B_after") => ToNfa(e.res.B_after) = ToNfa(e.B))
+\* the operands as the operation saw them: the logged result of the pre-operation if there was one
+OpA(e) == IF Has(e.res, "A1") THEN ToNfa(e.res.A1) ELSE ToNfa(e.A)
+OpB(e) == IF Has(e.res, "B1") THEN ToNfa(e.res.B1) ELSE ToNfa(e.B)
+Unchanged(e) == ToNfa(e.res.A_after) = OpA(e)
+             /\ (Has(e.res, "B_after") => ToNfa(e.res.B_after) = OpB(e))
+PreOK(pre, X1, X) ==
+  CASE pre = "reverse" -> FALangEq(X1, FRev(X))
+    [] pre = "unreach" -> FALangEq(X1, X)
+    [] pre = "useless" -> FALangEq(X1, X)
+    [] pre = "witness" -> FAIncl(X1, X) /\ (FEmpty(X) \/ ~FEmpty(X1))
+    [] pre = "copy"    -> X1 = X
+    [] OTHER -> TRUE
 
 \* C09
 FaInclFails(e) ==
@@ -21,9 +31,11 @@ FaInclFails(e) ==
 
 \* C10
 FaOpFails(e) ==
-  LET A == ToNfa(e.A)  R == ToNfa(e.res.R)
-      B == IF Has(e, "B") THEN ToNfa(e.B) ELSE A
-  IN Why(Unchanged(e), "operand-changed") \cup
+  LET A == OpA(e)  R == ToNfa(e.res.R)
+      B == IF Has(e, "B") THEN OpB(e) ELSE A
+  IN Why(Unchanged(e), "operand-changed")
+     \cup (IF Has(e.res, "A1") THEN Why(PreOK(e.preA, ToNfa(e.res.A1), ToNfa(e.A)), "pre-op-A-" \o e.preA) ELSE {})
+     \cup (IF Has(e.res, "B1") THEN Why(PreOK(e.preB, ToNfa(e.res.B1), ToNfa(e.B)), "pre-op-B-" \o e.preB) ELSE {}) \cup
      (CASE e.kind = "union"     -> Why(FALangEq(R, FUnion(A, B)), "union-language")
         [] e.kind = "uniondisj" -> IF FStates(A) \cap FStates(B) # {} THEN {}
                                    ELSE Why(FALangEq(R, FDUnion(A, B)), "uniondisj-language")
